@@ -16,6 +16,9 @@ PASS_THROUGH = {
     "std::convert::AsRef::as_ref", "std::convert::AsMut::as_mut",
     "std::borrow::Borrow::borrow", "std::borrow::BorrowMut::borrow_mut",
     "std::clone::Clone::clone", "std::borrow::ToOwned::to_owned",
+    "std::slice::<impl [T]>::to_vec", "core::slice::<impl [T]>::to_vec", "std::slice::<impl [T]>::into_vec",
+    "std::vec::Vec::<T, A>::as_slice", "std::vec::Vec::<T, A>::as_mut_slice", "std::string::String::as_str", "std::string::String::as_mut_str",
+    "std::boxed::Box::<T>::new",
     "std::string::ToString::to_string", "std::string::String::as_str",
     "std::convert::Into::into", "std::convert::From::from",
     "std::boxed::Box::<T>::new", "std::iter::IntoIterator::into_iter",
